@@ -89,4 +89,21 @@ PROPS["C03"] = dict(
     claim="Unwrapper and queue-discipline contracts proved for all inputs; agreement with the interpreter's exception path checked on an "
           "exhaustively enumerated bounded family of chains (stated bound), which is what decides the property's interpreter-dependent part.",
     note=EI_NOTE + "; CPython object-model axioms assumed for the composition; exact DFS-flattening lemma (C03.flatten) not machine-checked")
+PROPS["C17"] = dict(
+    level="other", contracts=["contracts.c17"],
+    legs=[dict(name="c17_history", cmd="PYTHONPATH={repo} " + PY312 + " legs/c17_history.py")], technique=TECH + "; bounded history leg",
+    explanation="Deductive part (all inputs, unbounded): the scan loop of add_glue_as_needed is cut by an invariant with a per-iteration step "
+                "clause — the built-in entry is popped from the pending table before any call, the module's function is popped from the "
+                "module dict, at most one glue function is called per module and it is the module's when it has one, every Exception of a "
+                "glue function becomes exactly one warning and the loop continues, the scan runs under glue_lock, and the length cache keeps "
+                "its entry value throughout the scan and is set to the length of the SCANNED snapshot only after the loop (glue functions "
+                "may change sys.modules arbitrarily); builtin_glue.decorate runs now XOR registers. Exactly-once is linearity: a function is "
+                "called only right after being removed from the single place that holds it. The fast-path obligation 'equal length implies "
+                "every module scanned' is REFUTED (known finding F4). Histories: bounded leg enumerates all op sequences of length <= 4 over "
+                "three fake modules with every glue kind, a raising glue, and one two-thread schedule. Schedules are not explored: the "
+                "lock argument is in DESIGN.md.",
+    claim="Scan-loop, cache and decorator contracts proved; F4 (len fast path) is a known, genuine finding; histories and one forced "
+          "two-thread schedule checked on a bounded exhaustive family.",
+    note="warnings.warn returns normally; threading.Lock is a mutex; module names are atoms; glue functions do not touch the pending table, "
+         "other modules' glue entries or the cache; thread interleavings other than the one forced schedule are not explored")
 NOT_APPLICABLE = {}
